@@ -217,6 +217,7 @@ func (Builder) Execute(pl engine.Plan, c *engine.RunCtx) *engine.Failure {
 	offset := int32(0)
 	maxbit := int32(-1)
 	ascending := true // the concatenated shifted list is ascending and no Set happened
+	sawSet := false
 	var shifted []int32
 	var segs [][]int32
 	var sizes []int32
@@ -267,6 +268,7 @@ func (Builder) Execute(pl engine.Plan, c *engine.RunCtx) *engine.Failure {
 				return fail
 			}
 			ascending = false
+			sawSet = true
 			if op.Val&1 == 1 {
 				model[op.Bit] = struct{}{}
 				if op.Bit > maxbit {
@@ -345,6 +347,26 @@ func (Builder) Execute(pl engine.Plan, c *engine.RunCtx) *engine.Failure {
 				return engine.Failf("C12.of.words", step, "Of(list, %d) with last=%d returned %d words, want %d", offset, maxbit, len(ofw), wn)
 			}
 			st.Inc("probe.C12.history_equals_Of_checked")
+		}
+		if !ascending && !sawSet && len(segs) > 0 && len(shifted) > 0 {
+			// Segments with positions >= their size make the rebased list
+			// non-ascending. The statement gives OfMany and Builder.Extend the SAME
+			// meaning on "all sequences of (positions,size) segments, including
+			// positions >= size": every shifted bit set, enough words. OfMany sizes
+			// its result from the sizes and the LAST rebased position, so it is
+			// only defined when that covers every bit; inside that sub-domain its
+			// bits must be the Builder's.
+			lastShift := int64(shifted[len(shifted)-1])
+			if ceilWords(max64(int64(offset), lastShift+1)) > int(maxbit>>6) {
+				var omw []uint64
+				if !guard(func() string { return "OfMany (segments with positions >= size)" }, func() { omw = bitmap.OfMany(segs, sizes) }) {
+					return fail
+				}
+				if got := bitsOf(omw); !int32sEqual(got, want) {
+					return engine.Failf("C12.ofmany.bits", step, "after op %d: OfMany over the same segments (some positions >= their size) has bits %v, Builder.Extend built %v", oi, clip32(got), clip32(want))
+				}
+				st.Inc("probe.C12.ofmany_with_positions_ge_size")
+			}
 		}
 		st.State(engine.HashU64(0, uint64(offset), uint64(len(b.Words)), uint64(len(model)), uint64(maxbit)))
 		// ---- probes on the state reached
